@@ -702,6 +702,9 @@ func GenJob(r *core.Rng, name string, scrapeable bool) Job {
 	if r.Intn(8) == 0 {
 		j.FollowRedirects = boolp(false)
 	}
+	if r.Intn(7) == 0 {
+		j.ProxyURL = r.PickS("http://corp-proxy.example:3128", "http://10.1.2.3:8888")
+	}
 	j.Relabel = GenRelabels(r, j.Params)
 	j.MetricRelabel = GenMetricRelabels(r)
 	if scrapeable {
